@@ -38,7 +38,8 @@ Clause(e) ==
           ELSE IF ~WEq(e.T, e.w.r, e.w2.r, Defs) THEN "RoundTrip.weakfixpoint"
           ELSE IF ~e.amb /\ e.r.r # e.v THEN "RoundTrip.strict" ELSE "")
     [] e.ev = "marshal" ->
-         (IF e.w.k = "raised" THEN "Marshal.raised"
+         (IF "wrapper" \in DOMAIN e /\ ~e.wrapper THEN "Marshal.entryPointsDisagree"     \* marshal(v, t=T) vs marshaller(T)(v)
+          ELSE IF e.w.k = "raised" THEN "Marshal.raised"
           ELSE IF ~IsWire(e.w.r) THEN WireBad(e.w.r, "IsWire")
           ELSE IF ~e.json_ok THEN "Marshal.jsonEncoderRejects"
           ELSE IF ~e.again THEN "Marshal.notDeterministic"
